@@ -129,6 +129,11 @@ protected:
         });
     }
 
+    // Forget the names inserted since the container had `count` entries (the command that introduced them was rejected)
+    void rollbackTo(std::size_t count) {
+        scopedNamesAndTerms.truncate(count, [this](auto const & p) { eraseTermName(p.first); });
+    }
+
     bool eraseTermName(TermName const & name) {
         auto termIt = nameToTerm.find(name);
         if (termIt == nameToTerm.end()) { return false; }
